@@ -36,10 +36,7 @@ package statesync
 //@   grants v: result1 == nil ==> provState(result0.Validators, result0.AppHash, result0.LastBlockHeight, arg1)
 
 // What the application reported about itself after the restore.
-//@ spec func appInfo(appHash []byte, height uint64, version uint64) bool
-//@ extern proxy.AppConnQuery.InfoSync
-//@   assigns nothing
-//@   grants v: result1 == nil ==> appInfo(result0.LastBlockAppHash, uint64(result0.LastBlockHeight), result0.AppVersion)
+// (appInfo and the contract of AppConnQuery.InfoSync are declared in state/zz_verif_contracts.go.)
 // What was offered to the application.
 //@ spec func offered(height uint64, format uint32, chunks uint32, hash []byte, appHash []byte) bool
 //@ extern proxy.AppConnSnapshot.OfferSnapshotSync
